@@ -5,9 +5,7 @@ import numpy as np
 from hypothesis import strategies as st
 
 import nifty.cl as ift
-from vlib import Discard, Violation, close, require
-from vlib import nx
-from vlib import strat as S
+from vlib import close, require
 
 from . import _c02_common as C
 
@@ -38,7 +36,8 @@ def contraction_recipes(draw, tier):
     weightable = all(rs[s][0] != "U" for s in spl)
     integ = draw(st.booleans()) and weightable
     power = 1 if integ else (draw(st.sampled_from([0, 0, 1, 2, -1])) if weightable else 0)
-    return {"dom": rs, "spaces": sp, "integ": integ, "power": power, "seed": draw(SEED)}
+    via = draw(st.sampled_from(["class", "class", "method"])) if power in (0, 1) else "class"
+    return {"dom": rs, "spaces": sp, "integ": integ, "power": power, "via": via, "seed": draw(SEED)}
 
 
 def contraction_check(rec):
@@ -46,7 +45,11 @@ def contraction_check(rec):
     dom = C.mk_dom(rs)
     sp = rec["spaces"]
     arg = None if sp is None else (sp if isinstance(sp, int) else tuple(sp))
-    if rec["integ"]:
+    via = rec.get("via", "class")
+    if via == "method":
+        idop = ift.ScalingOperator(dom, 1.)
+        op = idop.integrate(arg) if rec["power"] == 1 else idop.sum(arg)      # Operator.sum / .integrate
+    elif rec["integ"]:
         op = ift.IntegrationOperator(dom, arg)
     else:
         op = ift.ContractionOperator(dom, arg, rec["power"])
@@ -62,7 +65,7 @@ def contraction_check(rec):
     cls = C.verify(op, ref, rec["seed"], exp_dom=dom, exp_tgt=tgt, exp_cap=3,
                    scale=max(1.0, float(np.max(np.abs(w)))))
     cls += C.dom_classes(rs) + [f"power_{rec['power']}", "integration" if rec["integ"] else "contraction",
-                                "all_contracted" if len(spl) == len(rs) else "partial"]
+                                "all_contracted" if len(spl) == len(rs) else "partial", "via_" + via]
     nonscalar = any(not np.isscalar(C.vol(rs[s])) for s in spl) and rec["power"] != 0
     if nonscalar:
         cls.append("nonscalar_volume")
@@ -500,7 +503,6 @@ def split_check(rec):
                 a, b, s = e["slice"]
                 rng = list(range(sz))[slice(a, b, s)]
                 per.append(("take", rng))
-                whole = (a in (None, 0)) and (b in (None,)) and (s in (None,))
                 if a is None and b is None and s is None:
                     td.append(C.mk_space(r))
                     per[-1] = None
